@@ -58,7 +58,7 @@ CLAIMS = {
             'element for all field values; notations agree; nested round trip for all trees (nested induction); no mutation (state-passing style)'),
     'C18': ('partial: exact integer/rational model of the whole rendering pipeline; text parses back exactly; half-unit accuracy outside the carry '
             'region (REFUTED inside: known finding); saturation; complex signs; binary64 arithmetic inside the formatter is validated on the '
-            'property\'s grid (near-tie rule), not proved'),
+            'property\'s grid (near-tie rule), not proved; every rendering method of Utils.py regenerated and proved equal to the model (C18c)'),
     'C19': ('full on the model: every guarded parameter of every constructor (read from the regenerated table) rejects negatives and accepts 0; '
             'duplicates / grounds / floating reference at every position and multiplicity; typed loader errors; unknown ids; stored unaltered'),
     'C20': ('partial: history theorem (Frame for every performed operation => every result equals the isolated result) over a state-passing model of '
